@@ -255,9 +255,23 @@ package pebbledb
 //@ end
 
 // decodeSignature writes only through its destination pointer (trusted: its body is the gob/JSON decoders).
+// A stored record is decoded into a zero value: gob and JSON decoding merge into what the destination already holds
+// (absent fields keep their old value, slices reuse their backing array), so a reused destination mixes records.
 //@ func decodeSignature
 //@   trusted
+//@   requires [C18.zero] fieldsReset(sig)
 //@   modifies sig
+
+// C18: the export holds one entry per stored record, each decoded into a fresh zero value.
+//@ func (*PebbleScanner).ExportToJSON
+//@   noframe
+//@   protocol-only C18
+//@   ghost decN int
+//@   init decN = 0
+//@   call decodeSignature update decN = decN + ite(result == nil, 1, 0)
+//@   loop 1 invariant [C18.export] len(sigs) == decN
+//@   call encoding/json.MarshalIndent assert [C18.export] len(sigs) == decN
+//@   ensures [C18.export] true
 
 //@ func encodeIndexValue
 
